@@ -71,8 +71,11 @@ impl Check for Constructor {
             }
         };
 
-        // the name of the constructor in the symbol table for the instantiated data type, the
-        // instance must exists already
+        // make sure the instance of the expected data type exists (it may be mentioned here for the
+        // first time, e.g., as the result type of a destructor)
+        expected.check(&Some(self.span), symbol_table)?;
+
+        // the name of the constructor in the symbol table for the instantiated data type
         let name = self.id.clone() + &type_args.print_to_string(None);
         match symbol_table.ctors.get(&name) {
             Some(types) => {
